@@ -705,4 +705,12 @@ def run(P, rep, tier):
     r_variadic(cg, B, rep, P)
     r_va_walkers(P, rep)
     r_reg_class(P, B, rep)
+    # psABI 3.2.1: the x87 control word is callee-saved. The only code that changes it is the long double -> integer conversion family.
+    from ..report import Report, reissue
+    from . import c01
+    rep.rule('R06.9', 'the x87 control word is preserved across every function: each long double -> integer conversion restores the word it saved (same obligations as C02 R02.1 for the long double source row)', floor=8)
+    sub = Report('C02')
+    sub.rule('R02.1', '', 1)
+    c01.r015(cg, sub, 'fp')
+    reissue(rep, 'R06.9', sub, 'a caller\'s rounding mode would be changed by the call: ', keep=lambda o: ':cast:ldouble->' in o['key'])
     r_callee_saved(P, rep)
